@@ -9,18 +9,19 @@ class C11(Spec):
     required_theorems = (
         "C11.state_rollback_exact",
         "C11.group_all_or_fee",
-        "C11.local_rollback_exact_partial",
-        "C11.local_rollback_exact_full_false",
+        "C11.local_rollback_exact",
     )
-    partial = ("C11.local_rollback_exact_partial",)
-    refuted = ("C11.local_rollback_exact_full_false",)
+    partial = ()
+    refuted = ()
     level_text = (
         "Lean theorems about a model of executor.StateDB / executor.LocalDB (over the remote layered store) and the "
         "control flow of execTx / execTxGroup / execTxOne / execFee / begin / commit / rollback with contracts as "
         "programs: a failed transaction's (group's) receipt keeps exactly the fee KV and every later StateDB read, "
         "under any later operation sequence, equals the fee-only run (state_rollback_exact, group_all_or_fee; proved by "
-        "a bisimulation). For local data the full statement is refuted on a concrete block (S-C11: LocalDB.Rollback "
-        "keeps the buffered kvs) and proved with the hypothesis that the driver is not ExecLocalSameTime. The model is "
+        "a bisimulation). For local data (repaired LocalDB.Rollback, /repo c51e8d4) local_rollback_exact shows the same "
+        "for every later sequence of local transactions (Get/Set/List), via a coherence invariant of LocalDB over the "
+        "remote store that block execution maintains; the pre-repair Rollback is kept as rollbackOld with a "
+        "regression witness (S-C11). The model is "
         "tied to /repo by executing generated blocks (<= 12 programs incl. groups, write-then-fail, poor senders, "
         "panics) through the real executor module on a testnode and comparing receipts and every read of every "
         "transaction; the property predicate (later receipts/reads equal the run where the failed unit only paid its "
